@@ -9,7 +9,10 @@ Three groups of cases on one harness (harness/s_xen.c) and one model stream (`xe
   C  the public API (kdump_open_fd, kdump_read in both address spaces,
      addrxlat_fulladdr_conv both ways) on generated xc_core ELF files: .xen_p2m and
      .xen_pfn, little- and big-endian, page list section at aligned, unaligned and
-     file-cache-block-straddling offsets, section headers in any order.
+     file-cache-block-straddling offsets, section headers in any order; with histories:
+     translation options set / cleared between the operations, each change followed by a new
+     request for the translation (kdump_get_addrxlat or a read that needs it), set-ups that
+     fail and are repaired — the conversions must stay the same function of the page list.
 (1) the property is evaluated on the implementation's outputs against the list itself
 (a Python dict), (2) implementation and Lean model are diffed line by line."""
 import os
@@ -21,7 +24,7 @@ PS_SHIFT = 12
 T = "Kdf.Props.C19."
 THEOREMS = [T + t for t in ("search_build", "listed_found", "unlisted_none", "build_total", "build_junk_irrelevant",
                             "p2m_m2p_roundtrip", "both_views_same_page", "unlisted_missing_both",
-                            "pfn_only_view")]
+                            "pfn_only_view", "xlat_history", "reinit_same_function", "failed_setup_retried")]
 FCACHE_BLOCK = 4 << 20          # file cache block (FCACHE_ORDER 10, 4 KiB host pages)
 
 
@@ -335,11 +338,69 @@ def group_c(R):
         order = rng.choice([None, None, [0, 2, 1], [1, 0, 2], [1, 2, 0], [2, 0, 1], [2, 1, 0]])
         pad = rng.choice([0, 0, 0, rng.randint(1, entsz - 1)])
         cases.append(dict(nonauto=int(nonauto), be=int(be), mapoff=mapoff, order=order, pad=pad, tbl=tbl,
-                          note_name=".note.Xen" if (be or rng.random() < 0.5) else "Xen"))
+                          note_name=".note.Xen" if (be or rng.random() < 0.5) else "Xen", hist=(i % 2 == 1 or i % 10 == 0)))
     return cases
 
 
+# Option changes that flag the translation dirty (vtop.c: dirty_xlat_ops).  GOOD: the set-up succeeds
+# with them on the generated dumps; BAD: (change that makes addrxlat_sys_os_init fail, its kind for the
+# model: 1 = after the wipe, 2 = before it, change that repairs it).
+GOOD_OPTS = {
+    0: ["addrxlat.default.phys_bits n %d" % b for b in (36, 40, 46, 52)] + ["addrxlat.force.phys_bits n 44", "addrxlat.force.phys_bits c 0",
+        "addrxlat.default.version_code n 328704", "addrxlat.force.version_code n 393473", "addrxlat.force.version_code c 0",
+        "addrxlat.default.virt_bits n 57", "addrxlat.default.virt_bits n 48", "addrxlat.default.page_shift n 12",
+        "addrxlat.ostype s linux", "addrxlat.ostype s xen", "addrxlat.default.os_type s linux", "xen.p2m_mfn a 4096",
+        "addrxlat.default.xen_xlat n 1"],
+    1: ["addrxlat.default.phys_bits n %d" % b for b in (36, 40, 46, 52)] + ["addrxlat.force.phys_bits n 44", "addrxlat.force.phys_bits c 0",
+        "addrxlat.default.version_code n 328704", "addrxlat.force.version_code n 393473", "addrxlat.force.version_code c 0",
+        "addrxlat.default.virt_bits n 57", "addrxlat.default.virt_bits c 0", "addrxlat.default.page_shift n 12",
+        "addrxlat.default.xen_xlat n 1"],
+}
+BAD_OPTS = {
+    0: [("addrxlat.default.virt_bits c 0", 1, "addrxlat.default.virt_bits n 48"),
+        ("addrxlat.default.virt_bits n 13", 1, "addrxlat.default.virt_bits n 48"),
+        ("addrxlat.force.arch s bogus", 2, "addrxlat.force.arch c 0")],
+    1: [("addrxlat.force.arch s bogus", 2, "addrxlat.force.arch c 0")],
+}
+
+
+def reinit_ops(rng, c):
+    """one change of the translation set-up; returns protocol tuples ("reinit", fetch, os, key, kind, value) / ("kv", addr)"""
+    be = c["be"]
+    def ri(fetch, os_, opt):
+        k, kind, val = opt.split()
+        return ("reinit", fetch, os_, k, kind, val)
+    r = rng.random()
+    if r < 0.55:
+        return [ri(1, 0, rng.choice(GOOD_OPTS[be]))]
+    if r < 0.75:
+        # several changes, then one lazy set-up by a read that needs translation
+        return [ri(0, 0, rng.choice(GOOD_OPTS[be])) for _ in range(rng.randint(1, 3))] + [("kv", rng.choice([0, 0xffffffff80000000, 0x1000]))]
+    bad, kind, fix = rng.choice(BAD_OPTS[be])
+    good = [o for o in GOOD_OPTS[be] if o.split()[0] != bad.split()[0]]
+    good = [o for o in good if not o.startswith("addrxlat.ostype")]
+    # (the x86-64 set-up needs the paging mode for a Linux guest only: pin the OS type first)
+    pre = [ri(1, 0, "addrxlat.ostype s linux")] if not be else []
+    again = [("reinit", 1, kind, "-", "x", "0")]           # the application asks again without changing anything
+    mid = again if rng.random() < 0.6 else again + [ri(1, kind, rng.choice(good))] if rng.random() < 0.5 else [ri(1, kind, rng.choice(good))] + again
+    return pre + [ri(1, kind, bad)] + mid + [ri(1, 0, fix)]
+
+
 def c_ops(R, c):
+    rng = R.rng
+    maxf = (1 << (64 - PS_SHIFT)) - 1
+    pf = [e[0] for e in c["tbl"]]; mf = [e[1] for e in c["tbl"]]
+    ops = c_ops_plain(R, c)
+    if c.get("hist"):
+        # histories: the same kinds of operations again after each change of the translation set-up
+        first = list(ops)
+        for _ in range(rng.randint(1, 3)):
+            ops += reinit_ops(rng, c)
+            ops += rng.sample(first, min(len(first), rng.randint(6, 14)))
+    return ops
+
+
+def c_ops_plain(R, c):
     rng = R.rng
     maxf = (1 << (64 - PS_SHIFT)) - 1
     pf = [e[0] for e in c["tbl"]]; mf = [e[1] for e in c["tbl"]]
@@ -390,7 +451,25 @@ def c_check(c, outs):
     if not outs or outs[0] != "open ok":
         return 0, "the dump cannot be opened: %s" % (outs[0] if outs else "no output")
     mask = (1 << PS_SHIFT) - 1
+    changes = []
     for k, (op, o) in enumerate(zip(c["ops"], outs[1:]), 1):
+        if op[0] == "reinit":
+            fetch, os_, key = op[1], op[2], op[3]
+            changes.append("%s %s %s" % (key, op[4], op[5]) if op[4] != "x" else "(no change: kdump_get_addrxlat again)")
+            t = o.split()
+            if len(t) != 3 or t[1] != "ok":
+                return k, "changing %s (%s %s) failed: '%s'" % (key, op[4], op[5], o)
+            if fetch and os_ == 0 and t[2] != "ok":
+                return k, "after the option change %s the translation cannot be set up again: kdump_get_addrxlat says '%s'" % (changes[-1], t[2])
+            if fetch and os_ == 1 and t[2] == "ok":
+                # (os_ == 2, a set-up refused before the system is touched, is compared through the model only: the
+                # system that is handed out then still has the methods of the dump)
+                return k, ("kdump_get_addrxlat reports success although the translation set-up fails with the options at hand "
+                           "(changes so far: %s): a failed set-up was forgotten and the reset translation system, which lacks the "
+                           "guest<->machine methods of the dump, is handed out" % "; ".join(changes[-3:]))
+            continue
+        if op[0] == "kv":
+            continue
         if op[0] == "page":
             as_, f = op[1], op[2]
             if as_ == 1 and not c["nonauto"]:
@@ -412,8 +491,9 @@ def c_check(c, outs):
             fr, to, a = op[1], op[2], op[3]; f = a >> PS_SHIFT
             src, dst = (pidx, 1) if fr == 0 else (midx, 0)
             exp = "conv ok %d" % ((c["tbl"][src[f]][dst] << PS_SHIFT) + (a & mask)) if f in src else "conv fail"
-            what = "conversion of %s address %#x (%s)" % ("guest" if fr == 0 else "machine", a,
-                                                          "page #%d" % src[f] if f in src else "frame not listed")
+            what = "conversion of %s address %#x (%s)%s" % ("guest" if fr == 0 else "machine", a,
+                                                            "page #%d" % src[f] if f in src else "frame not listed",
+                                                            " after the translation was set up again (option changes: %s)" % "; ".join(changes[-4:]) if changes else "")
         if o != exp:
             return k, "%s: got '%s', expected '%s'" % (what, o, exp)
     if len(outs) != 1 + len(c["ops"]):
@@ -440,7 +520,7 @@ class Runner:
 def nobs(line):
     """number of observation lines a protocol line produces"""
     w = line.split(" ", 1)[0]
-    return 0 if w in ("dump", "close", "") else 1
+    return 0 if w in ("dump", "close", "") else 1      # reinit, kv: one line each
 
 
 def split_outs(blocks, outs):
@@ -681,12 +761,18 @@ def run(R):
                     "of the frame space; every listed frame, its neighbours (+-1, +-2), 0 and 2^64-1 searched; each realloc of sampled builds failed once. "
                     "B: first-step functions and xc_get_page on in-memory tables, shifts 1..16, both byte orders. C: generated xc_core files "
                     "(p2m/pfn, LE x86_64 / BE s390x, list section aligned / unaligned / straddling a 4 MiB file-cache block, section order, trailing bytes), "
-                    "kdump_read of every listed and neighbouring frame in both address spaces, conversions both ways. non-trivial = distinct lists with a run and a second piece / tables with >=3 records",
+                    "kdump_read of every listed and neighbouring frame in both address spaces, conversions both ways; in half of the files as a HISTORY: "
+                    "1-3 changes of the translation set-up (addrxlat.default.* / addrxlat.force.* / addrxlat.ostype / xen.p2m_mfn set or cleared, "
+                    "followed by kdump_get_addrxlat or by a read in the kernel virtual space; set-ups that fail after or before the reset of the "
+                    "translation system, asked for again without a change, then repaired), the same reads and conversions after each. non-trivial = distinct lists with a run and a second piece / tables with >=3 records",
                traces_validated_against_impl=validated, correspondence_first_diff=first_diff, case_kinds=kinds, samples=samples[:3])
     return "proof", cov, ["page lists with pairwise distinct frame numbers (a frame listed twice has no single page to compare)",
                           "fewer than 2^63 list entries (int_fast64_t run length cannot overflow)",
                           "frame numbers below 2^(64-page_shift) where byte addresses are formed",
-                          "qsort sorts; realloc/pread behave as specified"]
+                          "qsort sorts; realloc/pread behave as specified",
+                          "histories: whether addrxlat_sys_os_init succeeds with the options at hand is a parameter of the model (given by the "
+                          "generator for each step: the listed option changes succeed on the generated x86_64 / s390x domain dumps, a missing or "
+                          "13-bit paging mode and an unknown architecture name fail); the address translation of libaddrxlat itself is C08/C09's subject"]
 
 
 def first_error(err):
@@ -729,7 +815,12 @@ def shrink_b(run, c, k):
 def shrink_c(R, run, c, k):
     cur = dict(c)
     if 1 <= k <= len(c["ops"]):
-        cur["ops"] = [c["ops"][k - 1]]
+        if any(op[0] in ("reinit", "kv") for op in c["ops"][:k]):
+            # a history: what a step means depends on the option changes before it -- keep them, drop the plain
+            # operations in between
+            cur["ops"] = [op for op in c["ops"][:k - 1] if op[0] in ("reinit", "kv")] + [c["ops"][k - 1]]
+        else:
+            cur["ops"] = [c["ops"][k - 1]]
     path = R.path("c19-shrink.dump")
     def bad(x):
         info = c_write(R, x, path)
